@@ -1,4 +1,4 @@
-pub mod time;
+include!(concat!(env!("OUT_DIR"), "/probes_gen.rs"));
 use std::io::{BufRead, Write};
 
 /// Decode a hex token into bytes ("-" = empty).
@@ -28,8 +28,5 @@ pub fn run_fn() {
 }
 
 fn dispatch(t: &[String]) -> String {
-    match t[0].as_str() {
-        p if p.starts_with("time_") => time::run(t),
-        _ => "UNKNOWN_PROBE".to_string(),
-    }
+    dispatch_gen(t).unwrap_or_else(|| "UNKNOWN_PROBE".to_string())
 }
